@@ -6,11 +6,29 @@ session_add_dlopen / session_find_dlsym / task_find_sym_addr (utils/session.c) a
 task.txt writer+reader (utils/data-file.c), compiled from the scratch snapshot, run on
 generated .sym texts, tables and session timelines against the Lean model; plus monitors
 that evaluate the property itself (brute-force containment, round trip, ASLR independence,
-session/dlopen ground truth known to the generator) on the implementation's output."""
+session/dlopen ground truth known to the generator) on the implementation's output.
+
+Record-time side (Uft/Model/DlRecord.lean, libmcount/wrap.c): e2e (H5).  Script-driven programs
+(harness/c10_dl_main.c + plugin libraries built from harness/c10_dl_plug.c: traced constructors
+and destructors, a dependency, a constructor that calls dlopen() itself, same basename in two
+directories, basename-prefix pairs) run generated dlopen/dlsym/dlclose timelines under the
+snapshot's `uftrace record`; the loader's list is logged by harness/c10_dl_log.c after every
+operation.  (a) The DLOP lines of task.txt and the library every record is shown in are compared
+with the model's `dlrec` output for the same event history; (b) monitor: every record made inside
+a dlopen'ed object -- also while dlopen() is still running -- is shown by `uftrace replay` under
+the name `nm` gives for that address in that object and under the object's module name, and no
+DLOP timestamp is later than a record made in the object.  The check finds out (probe timelines)
+whether the tree has the C10-DLREPORT repair and compares with that variant of the model; the
+as-coded variant is reported as finding C10-DLREPORT (KNOWN-FINDING if listed open in
+known_findings.json, a VIOLATION otherwise); any other failure is a VIOLATION of its own."""
 import hashlib
 import json
 import os
+import re
+import shutil
+import struct
 import subprocess
+from concurrent.futures import ThreadPoolExecutor
 
 from lib import common as C
 
@@ -526,6 +544,86 @@ int _libfn_under(int x) __attribute__((alias("libfn")));
 """
 
 
+def read_elf_symbols(path):
+    """(entries of .symtab or None, entries of .dynsym or None), each (value, size, info, shndx, name), in file order"""
+    data = open(path, "rb").read()
+    if data[:4] != b"\x7fELF" or data[4] != 2 or data[5] != 1:
+        return None, None
+    shoff = struct.unpack_from("<Q", data, 0x28)[0]
+    shentsize, shnum, _ = struct.unpack_from("<HHH", data, 0x3a)
+    secs = [struct.unpack_from("<IIQQQQIIQQ", data, shoff + i * shentsize) for i in range(shnum)]
+
+    def table(ty):
+        for sec in secs:
+            if sec[1] == ty and sec[9]:
+                strtab = secs[sec[6]]
+                out = []
+                for k in range(sec[5] // sec[9]):
+                    nm_, info, _other, shndx, value, size = struct.unpack_from("<IBBHQQ", data, sec[4] + k * sec[9])
+                    a = strtab[4] + nm_
+                    out.append((value, size, info, shndx, data[a:data.index(b"\0", a)].decode("latin-1")))
+                return out
+        return None
+    return table(2), table(11)
+
+
+def elf_model_check(ctx, st, elf_cases, tables):
+    """tie of Model/ElfSym.lean: the table load_module_symtab builds from a real ELF file against
+    `elfload` (load_symtab: filter, skip aliases, sort, de-duplicate) on the file's symbol entries and
+    `elfmerge` (merge_symtabs) with the PLT entries.  Names are compared where update_symtab_using_dynsym
+    (renames only, not modelled) cannot have changed them.  Returns list of problems."""
+    probs = []
+    lines = []
+    meta = []
+    for case in elf_cases:
+        path = unhx(case.split()[1]).decode()
+        impl = tables.get(case)
+        symtab, dynsym = read_elf_symbols(path)
+        src = symtab if symtab is not None else dynsym
+        if impl is None or src is None:
+            continue
+        # (a file without .symtab falls back to .dynsym: the harness is built without libdw, so elf_retry()
+        # does not look for a separate debug file)
+        lines.append("elfload 0 | " + (" ".join("%x:%x:%x:%x:%s" % (v, sz, inf, shx, hx(n)) for (v, sz, inf, shx, n) in src) or "-"))
+        meta.append((case, path, impl, dynsym or []))
+    if not lines:
+        return probs
+    outs = C.run_model("C10", lines)
+    mlines = []
+    for (case, path, impl, dynsym), out in zip(meta, outs):
+        model = parse_table(out)
+        plt = [x for x in impl if x[2] == "P"]
+        mlines.append("elfmerge | %s | %s" % (" ".join(sym_tok(x) for x in model) or "-", " ".join(sym_tok(x) for x in plt) or "-"))
+    outs2 = C.run_model("C10", mlines)
+    for (case, path, impl, dynsym), out, out2 in zip(meta, outs, outs2):
+        model = parse_table(out)
+        st["elf_model_files"] += 1
+        st["elf_model_symbols"] += len(model)
+        own = [x for x in impl if x[2] != "P"]
+        if [x[:3] for x in own] != [x[:3] for x in model]:
+            a = {x[:3] for x in own}
+            b = {x[:3] for x in model}
+            probs.append({"what": "load_symtab table differs from the ElfSym model (elfload)", "file": path,
+                          "only_impl": ["%x:%x:%s" % x for x in sorted(a - b)][:6],
+                          "only_model": ["%x:%x:%s" % x for x in sorted(b - a)][:6],
+                          "n_impl": len(own), "n_model": len(model)})
+            continue
+        dynvals = sorted(v for (v, sz, inf, shx, n) in dynsym if shx != 0 and (inf & 15) in (1, 2, 10))
+        for x, y in zip(own, model):
+            renamed = any(x[0] <= v < x[0] + x[1] for v in dynvals) if len(dynvals) < 64 else True
+            if not renamed:
+                st["elf_model_names_compared"] += 1
+                if x[3] != y[3]:
+                    probs.append({"what": "symbol name differs from the ElfSym model (sort_symtab name choice)",
+                                  "file": path, "impl": sym_tok(x), "model": sym_tok(y)})
+                    break
+        merged = parse_table(out2)
+        if [x[:3] for x in merged] != [x[:3] for x in impl]:
+            probs.append({"what": "merge_symtabs result differs from the ElfSym model (elfmerge)", "file": path,
+                          "n_impl": len(impl), "n_model": len(merged)})
+    return probs
+
+
 def build_elf_cases(ctx, st):
     """real ELF files -> `elf` cases with the addresses of their nm function symbols.
     Returns (cases, nm_info) with nm_info[case] = list of (addr, size, names)."""
@@ -619,9 +717,32 @@ def corpus_cases():
         for f in sorted(os.listdir(d)):
             for l in open(os.path.join(d, f)):
                 l = l.strip()
-                if l and not l.startswith("#"):
+                if l and not l.startswith("#") and not l.startswith("dl "):
                     cases.append(l)
     return cases
+
+
+def dl_corpus():
+    """record-time timelines kept in corpus/C10 (`dl o<k>:<lib> r<k>:<fn> c<k> n<k>:<lib> ...`)"""
+    d = os.path.join(C.VERIF, "corpus", "C10")
+    out = []
+    if os.path.isdir(d):
+        for f in sorted(os.listdir(d)):
+            for l in open(os.path.join(d, f)):
+                w = l.split()
+                if not w or w[0] != "dl":
+                    continue
+                ops = []
+                for t in w[1:]:
+                    k = int(t[1])
+                    if t[0] in "on":
+                        ops.append((t[0], k, int(t[3:])))
+                    elif t[0] == "r":
+                        ops.append(("r", k, t[3:]))
+                    else:
+                        ops.append(("c", k))
+                out.append(ops)
+    return out
 
 
 def canon_runs(t):
@@ -727,6 +848,7 @@ def check_case(case, pairs, mouts, expects, st):
         check_find(2, table)
     elif kind == "elf":
         table = parse_table(pairs[0][0].split("|")[1])
+        st["elf_impl_tables"][case] = table
         st["elf_tables"] += 1
         st["elf_symbols"] += len(table)
         if not well_formed(table):
@@ -841,6 +963,634 @@ def aslr_cases(rng, n):
     return cases
 
 
+# ---- record-time dlopen timelines (e2e, H5) ------------------------------------------------
+FINDING_DL = "C10-DLREPORT"
+DL_WHAT = ("dlopen_base_callback() reports a loaded object only if its dlpi_name contains the dlopen() argument "
+           "and no known map's basename starts with its basename, and dlclose() leaves the map in the list: "
+           "dependencies brought in by dlopen(), a second library with the same basename (or a basename that is "
+           "a prefix of a known one) and libraries opened again after dlclose() get no DLOP message; their "
+           "functions are shown as raw addresses, or under the names of the library that occupied the address before")
+
+# plugin pool: id -> (path below the work directory, options); the id is the suffix of the function names
+DL_LIBS = {
+    1: ("plug/libp1.so", {}),
+    2: ("plug/libp2.so", {}),
+    3: ("plug/libp3.so", {"dep": 2}),                      # DT_NEEDED libp2.so
+    4: ("plug/libp4.so", {"nest": 1}),                     # constructor dlopen()s libp1.so
+    5: ("red/libpaint.so", {}),
+    6: ("blue/libpaint.so", {"dtor": True}),               # same basename, other directory
+    7: ("plug/libp1.so.2", {}),                            # libp1.so is a prefix of its basename
+    8: ("plug/libq.so", {"dep": 9}),                       # the dependency's path contains "plug/libq.so"
+    9: ("plug/libq.so.1", {}),
+    10: ("plug/libbig.so", {"pad": 0x30000, "dtor": True}),
+    11: ("plug/libp5.so", {"nest": 3}),                    # constructor dlopen()s a library with a dependency
+}
+DL_BUILD_ORDER = [1, 2, 9, 3, 4, 5, 6, 7, 8, 10, 11]
+
+
+def dl_fns(lib):
+    """functions that can be called through a handle of this library (dlsym searches its dependencies)"""
+    f = ["run_%d" % lib, "setup_%d" % lib, "dep_fn_%d" % lib, "pre_nest_%d" % lib]
+    dep = DL_LIBS[lib][1].get("dep")
+    if dep:
+        f += ["dep_fn_%d" % dep, "run_%d" % dep]
+    return f
+
+
+def dl_closure(lib):
+    out = {lib}
+    dep = DL_LIBS[lib][1].get("dep")
+    if dep:
+        out |= dl_closure(dep)
+    return out
+
+
+def build_dl(ctx):
+    """builds the e2e programs; returns env dict or (None, log)"""
+    d = os.path.join(ctx.scratch, "dl")
+    shutil.rmtree(d, ignore_errors=True)
+    for sub in ("plug", "red", "blue"):
+        os.makedirs(os.path.join(d, sub))
+    H = os.path.join(C.VERIF, "harness")
+    cmds = [["gcc", "-O1", "-fPIC", "-shared", "-o", os.path.join(d, "libc10log.so"), os.path.join(H, "c10_dl_log.c")]]
+    for lib in DL_BUILD_ORDER:
+        rel, o = DL_LIBS[lib]
+        cmd = ["gcc", "-pg", "-O1", "-fPIC", "-shared", "-DN=%d" % lib, "-o", os.path.join(d, rel),
+               os.path.join(H, "c10_dl_plug.c")]
+        if o.get("dep"):
+            drel = DL_LIBS[o["dep"]][0]
+            cmd += ["-DDEP=%d" % o["dep"], "-L" + os.path.join(d, os.path.dirname(drel)),
+                    "-l:" + os.path.basename(drel), "-Wl,-rpath,$ORIGIN"]
+        if o.get("nest"):
+            cmd += ['-DNEST="%s"' % os.path.join(d, DL_LIBS[o["nest"]][0]), '-DNESTFN="run_%d"' % o["nest"], "-ldl"]
+        if o.get("dtor"):
+            cmd += ["-DDTOR"]
+        if o.get("pad"):
+            cmd += ["-DPAD=%d" % o["pad"]]
+        cmds.append(cmd)
+    cmds.append(["gcc", "-pg", "-O1", "-o", os.path.join(d, "main"), os.path.join(H, "c10_dl_main.c"),
+                 "-L" + d, "-lc10log", "-Wl,-rpath,$ORIGIN", "-ldl"])
+    for cmd in cmds:
+        r = C.sh(cmd)
+        if r.returncode != 0:
+            return None, " ".join(cmd) + "\n" + r.stdout
+    env = {"dir": d, "uftrace": os.path.join(ctx.src, "uftrace"), "libmcount": os.path.join(ctx.src, "libmcount"),
+           "nm": {}, "setarch": []}
+    r = C.sh(["setarch", "x86_64", "-R", "true"])
+    if r.returncode == 0:
+        env["setarch"] = ["setarch", "x86_64", "-R"]        # no ASLR: the address layout is reproducible
+    return env, ""
+
+
+def dl_nm(env, path):
+    """function symbols of an ELF file: sorted list of (value, size, name)"""
+    if path not in env["nm"]:
+        out = []
+        r = C.sh(["nm", "-S", "--defined-only", path], stderr=subprocess.DEVNULL)
+        for l in r.stdout.split("\n"):
+            w = l.split()
+            if len(w) == 4 and w[2] in "tTwW" and int(w[1], 16):
+                out.append((int(w[0], 16), int(w[1], 16), w[3]))
+        env["nm"][path] = sorted(out)
+    return env["nm"][path]
+
+
+def dl_argv(env, ops):
+    a = []
+    for op in ops:
+        if op[0] in "on":
+            a.append("%s%d=%s" % (op[0], op[1], os.path.join(env["dir"], DL_LIBS[op[2]][0])))
+        elif op[0] == "r":
+            a.append("r%d=%s" % (op[1], op[2]))
+        else:
+            a.append("c%d" % op[1])
+    return a
+
+
+def ns(t):
+    s, f = t.split(".")
+    return int(s) * 1000000000 + int(f)
+
+
+RE_REPLAY = re.compile(r"^\s*([0-9a-f]+)\s+(\d+\.\d+)\s+(\S+)\s+\|\s*(.*)$")
+RE_DLOP = re.compile(r'^DLOP timestamp=(\d+\.\d+) tid=\d+ sid=\S+ base=([0-9a-f]+) libname="(.*)"$')
+
+
+def run_dl_timeline(env, idx, ops):
+    """record one timeline with the real uftrace; returns the raw observations"""
+    d = os.path.join(env["dir"], "run%d" % idx)
+    shutil.rmtree(d, ignore_errors=True)
+    os.makedirs(d)
+    data = os.path.join(d, "data")
+    log = os.path.join(d, "log")
+    cmd = ["timeout", "60"] + env["setarch"] + [env["uftrace"], "record", "--libmcount-path=" + env["libmcount"],
+                                                "--no-event", "--no-pager", "-d", data,
+                                                os.path.join(env["dir"], "main")] + dl_argv(env, ops)
+    r = subprocess.run(cmd, stdout=subprocess.PIPE, stderr=subprocess.PIPE, text=True, cwd=d,
+                       env=dict(os.environ, C10_LOG=log))
+    res = {"ops": ops, "rc": r.returncode, "stderr": r.stderr[-600:], "dir": d}
+    if r.returncode != 0 or not os.path.exists(log):
+        res["error"] = "uftrace record failed"
+        return res
+    # task.txt
+    res["dlop"] = []
+    for l in open(os.path.join(data, "task.txt")):
+        m = RE_DLOP.match(l.strip())
+        if m:
+            res["dlop"].append((ns(m.group(1)), int(m.group(2), 16), m.group(3)))
+    # session maps
+    res["im"] = []
+    for f in sorted(os.listdir(data)):
+        if f.startswith("sid-") and f.endswith(".map"):
+            for l in open(os.path.join(data, f)):
+                w = l.split()
+                if len(w) >= 6 and not w[5].startswith("["):
+                    a, b = w[0].split("-")
+                    res["im"].append((w[5], int(a, 16), int(b, 16)))
+    # the loader's list after every operation
+    snaps = []
+    for l in open(log):
+        w = l.split()
+        if w[0] == "LOG":
+            snaps.append([w[1], int(w[2], 16), [], False])
+        elif w[0] == "OBJ":
+            snaps[-1][2].append({"name": unhx(w[1]).decode(), "real": unhx(w[2]).decode(), "bias": int(w[3], 16),
+                                 "start": int(w[4], 16), "stop": int(w[5], 16), "lo": int(w[6], 16),
+                                 "hi": int(w[7], 16)})
+        elif w[0] == "END":
+            snaps[-1][3] = True
+    res["snaps"] = snaps
+    # what replay shows
+    r2 = subprocess.run(["timeout", "60", env["uftrace"], "replay", "-d", data, "--no-pager", "--color=no",
+                         "-f", "addr,time,module"], stdout=subprocess.PIPE, stderr=subprocess.PIPE, text=True)
+    res["replay_rc"] = r2.returncode
+    ents = []
+    for l in r2.stdout.split("\n"):
+        m = RE_REPLAY.match(l)
+        if not m or m.group(4).startswith("}"):
+            continue
+        fn = m.group(4).strip()
+        fn = fn[:fn.index("(")] if "(" in fn else fn
+        ents.append({"addr": int(m.group(1), 16), "time": ns(m.group(2)), "module": m.group(3), "shown": fn})
+    res["ents"] = ents
+    if r2.returncode != 0 or not ents:
+        res["error"] = "uftrace replay failed: " + r2.stderr[-300:]
+    shutil.rmtree(data, ignore_errors=True)
+    return res
+
+
+def okey(o):
+    return (o["start"], o["real"], o["bias"])
+
+
+def dl_analyse(env, res):
+    """ground truth per record + the event history for the model.
+    returns dict(model_ops=[...], recs=[dynamic records in CL order], problems=[...])"""
+    ops = res["ops"]
+    snaps = res["snaps"]
+    out = {"problems": []}
+    if not snaps or snaps[0][0] != "start" or not all(s[3] for s in snaps):
+        out["problems"].append("harness log incomplete")
+        return out
+    startobjs = snaps[0][2]
+    startkeys = {okey(o) for o in startobjs}
+    mainobj = startobjs[0]
+    mainpath = os.path.join(env["dir"], "main")
+    opfn = [s for s in dl_nm(env, mainpath) if s[2] == "c10_op"]
+    if not opfn:
+        out["problems"].append("c10_op not found in main")
+        return out
+    op_lo = mainobj["bias"] + opfn[0][0]         # the recorded address is the mcount call site inside c10_op
+    op_hi = op_lo + opfn[0][1]
+    # split the records by operation (c10_op(i) is recorded before the i-th operation)
+    per_op = {}
+    cur = 0
+    for e in res["ents"]:
+        if op_lo <= e["addr"] < op_hi:
+            cur += 1
+            continue
+        per_op.setdefault(cur, []).append(e)
+    # walk the log
+    blocks = snaps[1:]
+    pos = 0
+    before = startobjs
+    mops = []                # model events
+    for (n, a, b) in res["im"]:
+        mops.append("IM %s %x %x" % (hx(n), a, b))
+    for o in startobjs:
+        mops.append("LD %s %s %x %x %x" % (hx(o["name"]), hx(o["real"]), o["bias"], o["start"], o["stop"]))
+    recs = []
+    feats = set()
+    assume = []          # hypotheses of c10_dlopen_record_resolves (Init, EvOk) evaluated on the real run
+    for o in startobjs:
+        if o["name"] and o["name"] != "linux-vdso.so.1" and \
+                not any(a <= o["start"] < b for (_, a, b) in res["im"]):
+            assume.append("Init.objs: %s loaded at start-up is not in the session maps" % o["name"])
+
+    def shape(o, others):
+        if not (o["bias"] <= o["start"] < o["stop"] < U64):
+            assume.append("EvOk.load: shape of %s" % o["name"])
+        for p_ in others:
+            if okey(p_) != okey(o) and p_["start"] < o["stop"] and o["start"] < p_["stop"]:
+                assume.append("EvOk.load: %s overlaps %s" % (o["name"], p_["name"]))
+
+    def ld(o):
+        # with the function symbols of the file (nm), what record saves as <basename>.sym
+        tab = " ".join(sym_tok((v, sz, "T", n)) for (v, sz, n) in dl_nm(env, o["real"])
+                       if o["start"] <= o["bias"] + v and o["bias"] + v + sz <= o["stop"])
+        return "LD %s %s %x %x %x %s" % (hx(o["name"]), hx(o["real"]), o["bias"], o["start"], o["stop"], tab)
+
+    def truth(e, cands):
+        """(object, symbol name) the address belongs to, by the loader's list and nm"""
+        for o in cands:
+            if o["lo"] <= e["addr"] < o["hi"]:
+                path = o["real"] if o["real"] else (mainpath if okey(o) == okey(mainobj) else "")
+                if not path:
+                    return o, None
+                for (v, sz, nm_) in dl_nm(env, path):
+                    if v <= e["addr"] - o["bias"] < v + sz:
+                        return o, nm_
+                return o, None
+        return None, None
+
+    def cl(e, cands, window):
+        o, sym = truth(e, cands)
+        if o is None:
+            out["problems"].append("record at %x belongs to no loaded object" % e["addr"])
+            return
+        dyn = okey(o) not in startkeys
+        e2 = dict(e, obj=o, sym=sym, dyn=dyn, window=window)
+        if dyn:
+            mops.append("TK 1")
+            mops.append("CL %x" % e["addr"])
+        recs.append(e2)
+        return e2
+
+    wid = [0]
+    for i, op in enumerate(ops, 1):
+        pos0 = pos
+        nests = []
+        while pos < len(blocks) and blocks[pos][0] == "nest":
+            nests.append(blocks[pos])
+            pos += 1
+        if pos >= len(blocks) or blocks[pos][0] != "op%d" % i:
+            out["problems"].append("harness log has no entry for operation %d" % i)
+            return out
+        after = blocks[pos]
+        pos += 1
+        bkeys = {okey(o) for o in before}
+        cands = list(before)
+        for blk in nests + [after]:
+            for o in blk[2]:
+                if okey(o) not in {okey(c) for c in cands}:
+                    cands.append(o)
+        ents = per_op.get(i, [])
+        if op[0] in "on":
+            path = os.path.join(env["dir"], DL_LIBS[op[2]][0])
+            wid[0] += 1
+            w = wid[0]
+            mops += ["TK 1", "EN %x %s" % (w, hx(path))]
+            allnew = [o for o in (nests[0][2] if nests else after[2]) if okey(o) not in bkeys]
+            inner_new = []
+            if nests:
+                feats.add("nested")
+                nlib = DL_LIBS[op[2]][1].get("nest")
+                inner_paths = {os.path.join(env["dir"], DL_LIBS[x][0]) for x in dl_closure(nlib)} if nlib else set()
+                inner_new = [o for o in allnew if o["real"] in inner_paths]
+                allnew = [o for o in allnew if o["real"] not in inner_paths]
+            for o in allnew + inner_new:
+                shape(o, (nests[0][2] if nests else after[2]))
+            for o in allnew:
+                mops += ["TK 1", ld(o)]
+            if len(allnew) > 1:
+                feats.add("dependency")
+            if not allnew and not nests:
+                feats.add("noload" if op[0] == "n" else "already-loaded")
+            state = 0 if nests else 2        # 0: before the nested dlopen, 1: inside, 2: after / none
+            for e in ents:
+                o, sym = truth(e, cands)
+                if state == 1 and sym and sym.startswith("post_nest_"):
+                    mops += ["TK 1", "LV %x %x" % (w + 0x100, nests[0][1])]
+                    state = 2
+                e2 = cl(e, cands, op[0] in "on")
+                if e2 and e2["dyn"]:
+                    feats.add("record-during-dlopen")
+                if state == 0 and sym and sym.startswith("pre_nest_"):
+                    nlib = DL_LIBS[op[2]][1].get("nest")
+                    mops += ["TK 1", "EN %x %s" % (w + 0x100, hx(os.path.join(env["dir"], DL_LIBS[nlib][0])))]
+                    for o2 in inner_new:
+                        mops += ["TK 1", ld(o2)]
+                    state = 1
+            if state != 2:
+                out["problems"].append("nested dlopen of operation %d not found in the trace" % i)
+            mops += ["TK 1", "LV %x %x" % (w, after[1])]
+        elif op[0] == "r":
+            for e in ents:
+                cl(e, cands, False)
+        else:
+            for e in ents:
+                e2 = cl(e, cands, False)
+                if e2 and e2["dyn"]:
+                    feats.add("record-during-dlclose")
+            akeys = {okey(o) for o in after[2]}
+            gone = [o for o in before if okey(o) not in akeys]
+            if after[1]:
+                mops += ["TK 1", "XC %x %s" % (after[1], " ".join("%x" % o["start"] for o in gone))]
+            if gone:
+                feats.add("unload")
+        # address reuse / reopen
+        for o in after[2]:
+            if okey(o) in bkeys or okey(o) in startkeys:
+                continue
+            for s in snaps[:pos0 + 1]:
+                for p in s[2]:
+                    if okey(p) not in startkeys and okey(p) != okey(o) and p["lo"] < o["hi"] and o["lo"] < p["hi"]:
+                        feats.add("address-reuse")
+                    if p["real"] == o["real"]:
+                        feats.add("reopen-same-address" if okey(p) == okey(o) else "reopen-other-address")
+        before = after[2]
+    # records after the last operation
+    for e in per_op.get(len(ops) + 1, []) + per_op.get(0, []):
+        cl(e, before + startobjs, False)
+    # the clock value a dlopen() reads (= the DLOP timestamp) differs from every value mcount_entry read
+    rt = {e["time"] for e in res["ents"]}
+    for (t, b, n) in res["dlop"]:
+        if t in rt:
+            assume.append("EvOk.enter: DLOP timestamp %d equals a record's timestamp" % t)
+    out.update({"model_ops": mops, "recs": recs, "feats": feats, "assume": assume})
+    return out
+
+
+def dl_model_lines(an):
+    body = " | ".join(an["model_ops"])
+    return ["dlrec %d %d | %s" % (fx, st, body) for (fx, st) in ((0, 0), (1, 0), (0, 1), (1, 1))]
+
+
+def parse_dlrec(line):
+    if not line.startswith("M"):
+        return None
+    m, s = line.split("|")
+    ms = []
+    for t in m.split()[1:]:
+        n, b = t.split("@")
+        ms.append((unhx(n).decode(), int(b, 16)))
+    ss = []
+    for t in s.split()[1:]:
+        if t == "-":
+            ss.append(None)
+        else:
+            f, n, b = t.split("@")
+            ss.append((unhx(f).decode(), unhx(n).decode(), int(b, 16)))
+    return ms, ss
+
+
+def dl_judge(res, an, mo):
+    """compares one timeline with the model outputs mo = {(fixed, stamp): (M, S)} and evaluates the monitors.
+    returns dict(match={variant: bool}, fails=[monitor failures], each with 'explained' flag)"""
+    real_m = [(n, b) for (_, b, n) in res["dlop"]]
+    dyn = [e for e in an["recs"] if e["dyn"]]
+    real_s = [None if e["module"] == "[unknown]" else (e["shown"], e["module"]) for e in dyn]
+    truth_s = [(e["obj"]["name"], e["obj"]["bias"]) for e in dyn]
+
+    def shown_ok(model, real):
+        """the model resolves with the libraries' function tables (nm), like session_find_dlsym: the same
+        function of the same library must be shown -- also when the as-coded wrapper makes it the wrong one"""
+        if model is None or real is None:
+            return model is None and real is None
+        return real == (model[0], os.path.basename(model[1]))
+
+    match = {}
+    match_m = {}
+    for k, v in mo.items():
+        if v is None:
+            match[k] = match_m[k] = False
+            continue
+        ms, ss = v
+        match_m[k] = ms == real_m
+        match[k] = (ms == real_m and len(ss) == len(dyn) and
+                    all(shown_ok(a, c) for a, c in zip(ss, real_s)))
+    fails = []
+    for j, e in enumerate(an["recs"]):
+        o = e["obj"]
+        if e["sym"] is None:
+            continue                      # PLT stubs of the main program etc.: not inside a function
+        want_mod = os.path.basename(o["name"]) if o["name"] else "main"
+        bad = None
+        if e["shown"] != e["sym"] or e["module"] != want_mod:
+            bad = "shown as %s in module %s" % (e["shown"], e["module"])
+        elif e["dyn"] and not any(b == o["bias"] and n == o["name"] and t <= e["time"] for (t, b, n) in res["dlop"]):
+            bad = "no DLOP line for this library and load address with a timestamp <= the record's"
+        if bad:
+            f = {"addr": "%x" % e["addr"], "time_ns": e["time"], "library": o["name"] or "main",
+                 "load_address": "%x" % o["bias"], "function_by_nm": e["sym"], "replay": bad,
+                 "made_while_dlopen_was_running": bool(e["window"]), "dyn": e["dyn"]}
+            if e["dyn"]:
+                k = [x for x in an["recs"] if x["dyn"]].index(e)
+                f["model"] = {"%d%d" % kk: (v[1][k] if v and k < len(v[1]) else "?") for kk, v in mo.items()}
+                f["truth"] = (o["name"], o["bias"])
+            fails.append(f)
+    return {"match": match, "match_m": match_m, "fails": fails, "real_m": real_m, "real_s": real_s, "ndyn": len(dyn)}
+
+
+DL_FIXED_TIMELINES = [
+    # constructor calls traced functions while dlopen() is running; call; close
+    [("o", 0, 1), ("r", 0, "run_1"), ("c", 0)],
+    # a dependency comes in with the library
+    [("o", 0, 3), ("r", 0, "run_3"), ("r", 0, "setup_3"), ("r", 0, "dep_fn_2")],
+    # the constructor calls dlopen() itself
+    [("o", 0, 4), ("r", 0, "run_4"), ("c", 0)],
+    # close, another library at the same place, open again elsewhere, close both, open again at the old place
+    [("o", 0, 1), ("r", 0, "run_1"), ("c", 0), ("o", 1, 2), ("o", 0, 1), ("r", 0, "run_1"), ("r", 1, "run_2"),
+     ("c", 1), ("c", 0), ("o", 0, 1), ("r", 0, "run_1")],
+    # same basename in two directories; destructor
+    [("o", 0, 5), ("r", 0, "run_5"), ("o", 1, 6), ("r", 1, "run_6"), ("c", 1), ("c", 0)],
+    # basename prefix
+    [("o", 0, 7), ("r", 0, "run_7"), ("o", 1, 1), ("r", 1, "run_1")],
+    # the dependency's name contains the dlopen() argument
+    [("o", 0, 8), ("r", 0, "setup_8"), ("c", 0), ("o", 0, 8), ("r", 0, "dep_fn_9")],
+    # same library twice, RTLD_NOLOAD of a loaded and of an unknown library
+    [("o", 0, 2), ("o", 1, 2), ("n", 2, 2), ("n", 3, 5), ("c", 0), ("r", 1, "run_2"), ("c", 1), ("c", 2)],
+    # nested dlopen of a library with a dependency; big library moves the addresses
+    [("o", 0, 10), ("o", 1, 11), ("r", 1, "run_11"), ("c", 0), ("o", 2, 2), ("r", 2, "run_2"), ("c", 1)],
+]
+DL_PROBES = (1, 4)          # timelines whose DLOP lines differ between the repaired and the as-coded wrapper
+
+
+def gen_dl_timeline(rng):
+    ops = []
+    slots = {}
+    closed = []
+    for _ in range(rng.randint(3, 11)):
+        r = rng.random()
+        free = [k for k in range(10) if k not in slots]
+        if (r < 0.45 or not slots) and free:
+            k = rng.choice(free)
+            if closed and rng.random() < 0.45:
+                lib = rng.choice(closed)                              # open again after dlclose
+            elif slots and rng.random() < 0.15:
+                lib = rng.choice(sorted(slots.values()))              # a library that is open
+            else:
+                lib = rng.choice(sorted(DL_LIBS))
+            ops.append(("o", k, lib))
+            slots[k] = lib
+        elif r < 0.75 and slots:
+            k = rng.choice(sorted(slots))
+            ops.append(("r", k, rng.choice(dl_fns(slots[k]))))
+        elif r < 0.94 and slots:
+            k = rng.choice(sorted(slots))
+            closed.append(slots.pop(k))
+            ops.append(("c", k))
+        elif free:
+            k = rng.choice(free)
+            lib = rng.choice(sorted(DL_LIBS))
+            ops.append(("n", k, lib))
+            slots[k] = lib
+    return ops
+
+
+def run_dl(ctx, st, timelines=None, made=None):
+    """the whole record-time section; returns list of per-timeline verdicts"""
+    ok, mlog = made.result() if made is not None else ctx.make()
+    if not ok:
+        C.violation(ctx, "build", {"kind": "uftrace-build-failed", "log": mlog[-3000:]}, True)
+        return None
+    env, log = build_dl(ctx)
+    if env is None:
+        C.violation(ctx, "build", {"kind": "harness-build-failed", "log": log[-3000:]}, True)
+        return None
+    quick = ctx.tier == "quick"
+    if timelines is None:
+        timelines = [list(t) for t in DL_FIXED_TIMELINES] + dl_corpus()
+        for _ in range(36 if quick else 400):
+            timelines.append(gen_dl_timeline(ctx.rng))
+    with ThreadPoolExecutor(8) as ex:
+        results = list(ex.map(lambda a: run_dl_timeline(env, a[0], a[1]), enumerate(timelines)))
+    analyses = []
+    mlines = []
+    for res in results:
+        an = {"problems": [res["error"]]} if "error" in res else dl_analyse(env, res)
+        analyses.append(an)
+        if "model_ops" in an:
+            mlines += dl_model_lines(an)
+    mouts = C.run_model("C10", mlines) if mlines else []
+    verdicts = []
+    p = 0
+    for res, an in zip(results, analyses):
+        v = {"ops": res["ops"], "argv": [a.replace(env["dir"] + "/", "") for a in dl_argv(env, res["ops"])],
+             "problems": list(an["problems"]), "feats": sorted(an.get("feats", [])),
+             "assume": an.get("assume", [])}
+        if "model_ops" in an:
+            mo = {}
+            for kk in ((0, 0), (1, 0), (0, 1), (1, 1)):
+                mo[kk] = parse_dlrec(mouts[p])
+                p += 1
+            v.update(dl_judge(res, an, mo))
+            v["model_input"] = dl_model_lines(an)[0][:6000]
+            v["recs"] = len(an["recs"])
+        else:
+            v["stderr"] = res.get("stderr", "")
+        verdicts.append(v)
+    st["dl_env"] = env
+    return verdicts
+
+def report_dl(ctx, verdicts, st):
+    """classifies the record-time results (see the module docstring)"""
+    known = {f["id"]: f for f in C.known_findings("C10")}
+    probes = [verdicts[i] for i in DL_PROBES if i < len(verdicts) and "match" in verdicts[i]]
+    # which wrapper is this?  decided by the DLOP lines (libname, base) of the probe timelines alone
+    fixed_ok = bool(probes) and all(v["match_m"][(1, 0)] for v in probes)
+    coded_ok = bool(probes) and all(v["match_m"][(0, 0)] for v in probes)
+    variant = (1, 0) if fixed_ok and not coded_ok else (0, 0) if coded_ok and not fixed_ok else None
+    if variant is None:
+        # no clear answer: compare with the variant the dependency probe points to
+        variant_cmp = (1, 0) if probes and len(probes[0]["real_m"]) > 1 else (0, 0)
+    else:
+        variant_cmp = variant
+    st["dl_variant"] = {(1, 0): "repaired (C10-DLREPORT applied)", (0, 0): "as coded"}.get(variant, "neither model variant")
+    nviol = 0
+    finding_case = None
+    for vi, v in enumerate(verdicts):
+        st["dl_timelines"] += 1
+        for ft in v.get("feats", []):
+            st["dl_features"][ft] = st["dl_features"].get(ft, 0) + 1
+        if "match" not in v:
+            st["dl_harness_problems"] += 1
+            if nviol < 3:
+                nviol += 1
+                C.violation(ctx, "dlrec-run-%d" % vi, {"kind": "e2e-run-failed", "dl_ops": v["ops"], "argv": v["argv"],
+                                                       "problems": v["problems"], "stderr": v.get("stderr", "")}, True)
+            continue
+        if v["assume"]:
+            st["dl_hypotheses_not_met"] += len(v["assume"])
+            if nviol < 3:
+                nviol += 1
+                C.violation(ctx, "dlrec-hyp-%d" % vi, {
+                    "kind": "theorem-hypothesis-not-met-by-the-implementation",
+                    "theorem": "c10_dlopen_record_resolves (Init / Valid)", "what": v["assume"][:6],
+                    "dl_ops": v["ops"], "argv": v["argv"]}, True)
+        st["dl_records_checked"] += v["recs"]
+        st["dl_records_in_dlopened_objects"] += v["ndyn"]
+        st["dl_dlop_lines"] += len(v["real_m"])
+        agree = v["match"][variant_cmp] and not v["problems"]
+        unexplained = []
+        explained = []
+        for f in v["fails"]:
+            ex = False
+            if variant_cmp == (0, 0) and f["dyn"] and "model" in f:
+                # the as-coded model resolves this record with no or another library's message, the repaired one
+                # with the right one
+                pc, pf = f["model"].get("00"), f["model"].get("10")
+                ex = (pf not in (None, "?") and tuple(pf[1:]) == tuple(f["truth"]) and pc != "?" and
+                      (pc is None or tuple(pc[1:]) != tuple(f["truth"])))
+            (explained if ex else unexplained).append(f)
+        st["dl_monitor_failures_explained_by_finding"] += len(explained)
+        st["dl_monitor_failures"] += len(unexplained)
+        st["dl_model_code_disagreements"] += not agree
+        if explained and finding_case is None:
+            finding_case = (v, explained)
+        if (unexplained or not agree) and nviol < 3:
+            nviol += 1
+            h = hashlib.sha1(" ".join(v["argv"]).encode()).hexdigest()[:8]
+            late = bool(unexplained) and bool(v["match"].get((variant_cmp[0], 1)))   # equals the stampAtSend variant
+            obj = {"kind": "property-violated-on-implementation" if unexplained else "model-code-disagreement",
+                   "what": ("a record made inside a dlopen'ed library is not shown under its function and module"
+                            if unexplained else "DLOP lines / shown libraries differ from the dlrec model"),
+                   "theorem": "c10_dlopen_record_resolves / c10_dlopen_msg_time_before_load",
+                   "dl_ops": v["ops"], "argv": v["argv"], "failing_records": unexplained[:8],
+                   "dlop_lines": [[n, "%x" % b] for (n, b) in v["real_m"]], "problems": v["problems"],
+                   "model_variant_compared": "fixed=%d stampAtSend=%d" % variant_cmp,
+                   "model_variants_that_match": ["fixed=%d stampAtSend=%d" % k for k, m in v["match"].items() if m],
+                   "model_input": v["model_input"]}
+            if v["match"].get((variant_cmp[0], 1)) and not agree:
+                obj["diagnosis"] = ("the output equals the model variant in which send_dlopen_msg() reads the clock "
+                                    "itself (c10_prefix_stamp_at_send_witness): the DLOP time is the time of sending, "
+                                    "records made while dlopen() was running precede it")
+            C.violation(ctx, ("dlrec-time-" if late else "dlrec-") + h, obj, no_failing_input=not unexplained)
+    if variant_cmp == (0, 0) and variant == (0, 0):
+        v, ex = finding_case if finding_case else (probes[0], [])
+        what = "%s %s" % (FINDING_DL, DL_WHAT)
+        if FINDING_DL in known:
+            C.known(ctx, known[FINDING_DL], what[:400])
+        else:
+            C.violation(ctx, FINDING_DL, {
+                "kind": "property-violated-on-implementation", "finding": FINDING_DL, "what": DL_WHAT,
+                "witness_theorems": ["c10_prefix_dlreport_dependency_witness", "c10_prefix_dlreport_basename_witness",
+                                     "c10_prefix_dlreport_reopen_witness"],
+                "proposed_fix": "proposed_fixes/C10-DLREPORT.diff",
+                "dl_ops": v["ops"], "argv": v["argv"], "failing_records": ex[:8],
+                "dlop_lines": [[n, "%x" % b] for (n, b) in v["real_m"]],
+                "timelines_affected": sum(1 for x in verdicts if any(
+                    f["dyn"] and (f.get("model", {}).get("10") or ("", "", 0))[1:] == tuple(f.get("truth", ()))
+                    for f in x.get("fails", [])))})
+    elif variant is None and probes:
+        C.violation(ctx, "dlrec-variant", {
+            "kind": "model-code-disagreement",
+            "what": "the DLOP lines of the probe timelines match neither the as-coded nor the repaired dlrec model",
+            "dl_ops": probes[0]["ops"], "argv": probes[0]["argv"],
+            "dlop_lines": [[n, "%x" % b] for (n, b) in probes[0]["real_m"]], "model_input": probes[0]["model_input"]},
+            no_failing_input=not any(v.get("fails") for v in probes))
+
+
 def run(ctx):
     ok, problems = C.prove(ctx, "C10")
     if not ok:
@@ -851,6 +1601,10 @@ def run(ctx):
     if exe is None:
         C.violation(ctx, "build", {"kind": "harness-build-failed", "log": log[-3000:]}, True)
         return C.finish(ctx)
+
+    # uftrace + libmcount for the record-time side are built while the analysis side runs
+    pool = ThreadPoolExecutor(1)
+    fut_make = pool.submit(ctx.make)
 
     rng = ctx.rng
     quick = ctx.tier == "quick"
@@ -878,12 +1632,15 @@ def run(ctx):
                          "unresolved", "loads", "load_order_diff_within_equal_addr", "roundtrips",
                          "roundtrips_with_premises", "scen_queries", "scen_ground_truth", "npo_tables",
                          "aslr_pairs", "elf_tables", "elf_symbols", "elf_tables_not_wf", "elf_roundtrips",
-                         "elf_roundtrip_premises_fail", "elf_nm_checks", "elf_skipped_mangled"]}
+                         "elf_roundtrip_premises_fail", "elf_nm_checks", "elf_skipped_mangled",
+                         "elf_model_files", "elf_model_symbols", "elf_model_names_compared"]}
     st["raw_flags"] = {}
+    st["elf_impl_tables"] = {}
     elf, st["nm_info"] = build_elf_cases(ctx, st)
     cases += elf
     res, err = run_cases(ctx, exe, cases, expects, st)
     if res is None:
+        fut_make.result()
         C.violation(ctx, "harness", dict(kind="harness-failed", **err), True)
         return C.finish(ctx)
 
@@ -919,14 +1676,39 @@ def run(ctx):
                             "what": "same module offset resolves differently at two load addresses",
                             "harness_case": case, "answers": [io[k], io[k + 1]]})
 
+    # ELF symbol loading against Model/ElfSym.lean
+    for pr in elf_model_check(ctx, st, elf, st.pop("elf_impl_tables")):
+        ndis += 1
+        if nviol < 5:
+            nviol += 1
+            C.violation(ctx, "elfsym-%d" % nviol, dict(kind="model-code-disagreement", theorem="c10_elf_symtab_wellformed",
+                                                       **pr), no_failing_input=True)
+    ctx.notes.append("analysis side done at %.1f s" % ctx.elapsed())
+    # ---- record-time side: dlopen timelines under the real uftrace record
+    st.update({"dl_timelines": 0, "dl_records_checked": 0, "dl_records_in_dlopened_objects": 0, "dl_dlop_lines": 0,
+               "dl_harness_problems": 0, "dl_monitor_failures": 0, "dl_monitor_failures_explained_by_finding": 0,
+               "dl_hypotheses_not_met": 0, "dl_model_code_disagreements": 0, "dl_features": {}, "dl_variant": "not run"})
+    verdicts = run_dl(ctx, st, made=fut_make)
+    pool.shutdown()
+    dl_samples = []
+    if verdicts is not None:
+        report_dl(ctx, verdicts, st)
+        dl_samples = [" ".join(v["argv"]) for v in verdicts[-2:]]
+        st["dl_distinct_timelines"] = len({" ".join(v["argv"]) for v in verdicts})
+    st.pop("dl_env", None)
+    ctx.notes.append("record-time side done at %.1f s" % ctx.elapsed())
+    nmon += st["dl_monitor_failures"]
+    ndis += st["dl_model_code_disagreements"]
+
     raw_flags = st.pop("raw_flags")
     st.pop("nm_info")
-    distinct = len({hashlib.sha1(c.encode()).hexdigest() for c in cases})
+    distinct = len({hashlib.sha1(c.encode()).hexdigest() for c in cases}) + st.get("dl_distinct_timelines", 0)
     samples = []
     for c in (cases[ncorpus + 2], cases[ncorpus + len(special_texts()) + 3], cases[-naslr - len(elf) - 2]):
         samples.append(c[:300])
     ctx.coverage.update({
-        "evaluations": st["find_queries"] + st["scen_queries"] + st["loads"] + st["roundtrips"],
+        "evaluations": st["find_queries"] + st["scen_queries"] + st["loads"] + st["roundtrips"] +
+        st["dl_records_checked"] + st["dl_dlop_lines"],
         "distinct_nontrivial": distinct,
         "rule": "corpus, then hand-made .sym texts for each named corner (adjacent, zero-size, duplicate "
                 "address, unsorted on disk, proper overlap, markers, kernel style, wrap), then random "
@@ -937,14 +1719,19 @@ def run(ctx):
                 "maps; symbol files written by the real save_module_symbol_file into the data directory or a "
                 "separate --with-syms directory, 60% with 2-4 modules sharing a basename and build-ids "
                 "all/none/mixed/same-4-prefix; every 4th with equal timestamps allowed) queried through "
-                "find_task_session/find_symtabs/session_find_dlsym/task_find_sym_addr; ASLR pairs. "
+                "find_task_session/find_symtabs/session_find_dlsym/task_find_sym_addr; ASLR pairs; "
+                "record-time: 9 hand-made + random dlopen/dlsym/dlclose/RTLD_NOLOAD timelines (3-11 operations over 11 "
+                "plugin libraries with traced constructors/destructors, a dependency, nested dlopen, same basename, "
+                "basename prefixes, 45% of the opens re-open a closed library) recorded by the real uftrace with ASLR "
+                "off, every record of the replay checked against the loader's list and nm. "
                 "distinct = distinct harness case lines",
         "cases": {"corpus": ncorpus, "special_texts": len(special_texts()), "random_texts": nlf,
-                  "random_tables": nsv, "timelines": nsc, "aslr": naslr, "real_elf_files": len(elf)},
+                  "random_tables": nsv, "timelines": nsc, "aslr": naslr, "real_elf_files": len(elf),
+                  "record_time_dlopen_timelines": st["dl_timelines"]},
         "model_code_disagreements": ndis,
         "monitor_failures_on_impl": nmon,
         "exhaustive": False,
-        "samples": samples,
+        "samples": samples + dl_samples,
     })
     ctx.coverage.update(st)
     scen = [c for c in cases if c.startswith("scen")]
@@ -959,6 +1746,11 @@ def run(ctx):
         "(the C code then reads a stale byte); '# symbols:' only in the header; first accepted line is a symbol",
         "rb-trees of sessions/tasks/modules are modelled by their in-order sequences",
         "no cyclic ppid chains; perf sched-event pseudo symbols not modelled",
+        "record time (DlRecord): the dlopen()/dlclose() wrappers run to completion (thread data present, no "
+        "recursion guard hit); a dlopen() reads a clock value larger than every value read before; objects are "
+        "mapped only inside dlopen() with non-empty text; nothing is unloaded while a dlopen() is in progress "
+        "(hypotheses EvOk of c10_dlopen_record_resolves); concurrent dlopen() calls are in the theorems, not in "
+        "the generated timelines (one thread)",
     ]
     return C.finish(ctx)
 
@@ -966,6 +1758,27 @@ def run(ctx):
 def replay(ctx, path):
     r = json.load(open(path))
     print(json.dumps(r, indent=1)[:6000])
+    if r.get("dl_ops"):
+        st = {"dl_timelines": 0, "dl_records_checked": 0, "dl_records_in_dlopened_objects": 0, "dl_dlop_lines": 0,
+              "dl_harness_problems": 0, "dl_monitor_failures": 0, "dl_monitor_failures_explained_by_finding": 0,
+              "dl_hypotheses_not_met": 0, "dl_model_code_disagreements": 0, "dl_features": {}, "dl_variant": "not run"}
+        tls = [list(t) for t in DL_FIXED_TIMELINES[:max(DL_PROBES) + 1]] + [[tuple(o) for o in r["dl_ops"]]]
+        verdicts = run_dl(ctx, st, timelines=tls)
+        if verdicts is None:
+            return 2
+        v = verdicts[-1]
+        print("argv:", " ".join(v["argv"]))
+        print("DLOP lines:", v.get("real_m"))
+        print("model variants that match:", [k for k, m in v.get("match", {}).items() if m])
+        for f in v.get("fails", []):
+            print("FAIL", json.dumps(f))
+        print("problems:", v["problems"])
+        probes = [verdicts[i] for i in DL_PROBES]
+        coded = all(p.get("match_m", {}).get((0, 0)) for p in probes) and not all(p.get("match_m", {}).get((1, 0)) for p in probes)
+        cmpv = (0, 0) if coded else (1, 0)
+        print("tree follows the %s wrapper" % ("as-coded" if coded else "repaired"))
+        bad = bool(v.get("fails")) or bool(v["problems"]) or not v.get("match", {}).get(cmpv)
+        return 1 if bad else 0
     case = r.get("harness_case")
     if not case:
         return 0
